@@ -399,8 +399,8 @@ impl C09 {
     fn sizes(&self) -> (usize, usize, usize, usize, usize) {
         // (generated base filters, search units, cases per search unit, eval units, cases per eval unit)
         match self.ctx.tier {
-            Tier::Quick => (300, 96, 4000, 96, 3000),
-            Tier::Thorough => (1200, 320, 5000, 320, 4000),
+            Tier::Quick => (400, 256, 8000, 256, 6000),
+            Tier::Thorough => (1500, 1024, 16000, 1024, 12000),
         }
     }
 
